@@ -35,7 +35,7 @@ func c19GroupX(seed uint64, k int, thorough, race bool) []*Trace {
 	// process for large components is then touched by all of them)
 	groupHuge := r.Intn(5) == 0
 	if race {
-		groupHuge = r.Intn(2) == 0
+		groupHuge = r.Intn(3) > 0
 	}
 	var trs []*Trace
 	for j := 0; j < K; j++ {
